@@ -27,6 +27,17 @@ type vhRand struct {
 	log    [][]byte // every buffer handed out (aliases of secrets)
 }
 
+func vhSizeTag(n int) string {
+	const d = "0123456789"
+	if n < 10 {
+		return "." + d[n:n+1]
+	}
+	if n < 100 {
+		return "." + d[n/10:n/10+1] + d[n%10:n%10+1]
+	}
+	return ".big"
+}
+
 func vhNewRand(name string) *vhRand { return &vhRand{name: name, failAt: -1} }
 
 func (r *vhRand) Read(p []byte) (int, error) {
@@ -40,15 +51,18 @@ func (r *vhRand) Read(p []byte) (int, error) {
 		}
 		return 0, io.ErrUnexpectedEOF
 	}
+	// reads are named by their size, so that the reads of the signature
+	// primitive (whose number differs between the model and the native run)
+	// do not shift the names of the others
 	var src []byte
 	if len(r.next) > 0 {
 		src = r.next[0]
 		r.next = r.next[1:]
 		if len(src) != len(p) {
-			src = vBytes(r.name, len(p))
+			src = vBytes(r.name+vhSizeTag(len(p)), len(p))
 		}
 	} else {
-		src = vBytes(r.name, len(p))
+		src = vBytes(r.name+vhSizeTag(len(p)), len(p))
 	}
 	copy(p, src)
 	r.log = append(r.log, p) // alias of the caller's buffer (the library keeps secrets in it)
